@@ -38,7 +38,8 @@ Calls(St) ==
   \cup [op : {"UploadPartCopy"} \cap Ops, sb : Buckets, sk : Keys, svid : Vids(St), b : Buckets, k : Keys,
         u : Uids(St), n : 1..MaxParts]
   \cup [op : {"CompleteUpload"} \cap Ops, b : Buckets, k : Keys, u : Uids(St),
-        manifest : {"none", "all", "missing", "reversed", "badetag", "extra"}, cond : Conds]
+        manifest : {"none", "all", "missing", "reversed", "badetag", "extra"}, cond : Conds,
+        cksum : CkSums \cap {"none", "md5bad"}]
   \cup [op : {"AbortUpload"} \cap Ops, b : Buckets, k : Keys, u : Uids(St)]
   \cup [op : {"PutTagging"} \cap Ops, b : Buckets, k : Keys, vid : Vids(St), tags : TagSets]
   \cup [op : {"Transition"} \cap Ops, b : Buckets, k : Keys, vid : Vids(St), class : Classes \ {None},
@@ -57,7 +58,7 @@ Apply(St, c) ==
     [] c.op = "CreateUpload"   -> CreateUpload(St, c.b, c.k, c.ctype, MetaOf(c.meta), c.tags, c.class, c.cktype)
     [] c.op = "UploadPart"     -> UploadPart(St, c.b, c.k, c.u, c.n, c.blob, c.cksum)
     [] c.op = "UploadPartCopy" -> UploadPartCopy(St, c.sb, c.sk, c.svid, c.b, c.k, c.u, c.n)
-    [] c.op = "CompleteUpload" -> CompleteUpload(St, c.b, c.k, c.u, c.manifest, c.cond)
+    [] c.op = "CompleteUpload" -> CompleteUpload(St, c.b, c.k, c.u, c.manifest, c.cond, c.cksum)
     [] c.op = "AbortUpload"    -> AbortUpload(St, c.b, c.k, c.u)
     [] c.op = "PutTagging"     -> PutTagging(St, c.b, c.k, c.vid, c.tags)
     [] c.op = "Transition"     -> Transition(St, c.b, c.k, c.vid, c.class, c.cond)
